@@ -5,6 +5,7 @@ CONSTANTS
  DevSlashOnly = FALSE
  DevDotOnly = FALSE
  DevAllowColon = TRUE
+ DevDefaultPartsSkipsNameCheck = FALSE
 INIT Init
 NEXT Next
 INVARIANTS C22_NoCapture
